@@ -9,31 +9,33 @@ entry points perform.
 * `resets_cover`: the fields the model's `St.entry` resets (or takes as arguments of the call) are all
   in the REGENERATED lists of fields that `(*Parser).Parse`, `(*Parser).ParseReader`,
   `(*Tokenizer).Parse`, `(*Tokenizer).Load` assign on every path before the first buffer is parsed — a
-  reset line that disappears from the Go source breaks this theorem;
+  reset line that disappears from the Go source breaks this theorem. Since ece2934 the parser lists
+  contain `plus` and `lastStrKey`, and the model resets them (undoing ece2934 breaks `resets_cover`);
 * `call_entry`: a call depends on the previous state only through the fields `St.entry` keeps:
-  `ri`, `rn`, `num`, `quoteDelim`, `lastKey`, `lastStrKey`, `exkey`, `plus`;
-* `reused_like_fresh_full_false`: the full statement — the outcome does not depend on `prev` at all —
-  is FALSE: with `plus` left set by a failed call, `[x "a"]` parses to `["xa"]`. This is the known
-  finding C07sen-plus-not-reset (a proposed fix resets the flag).
-
+  `ri`, `rn`, `num`, `quoteDelim`, `lastKey`, `exkey`;
 * `scratch_is_dead` (parser profile, every table set that passes `TablesOK`, so the regenerated one):
   the kept fields `ri`, `rn`, `num`, `quoteDelim`, `exkey` are dead on entry — every branch of the
   machine writes them before it reads them — so the outcome of a call (documents, error kind and
-  position, every chunking) depends on the previous state only through `plus`, `lastKey`, `lastStrKey`;
-* `reused_like_fresh_partial`: a sen.Parser on which no `+` is pending and whose `lastKey`/`lastStrKey`
-  are empty behaves exactly like a fresh one, whatever else the previous calls left behind.
+  position, every chunking) depends on the previous state only through `lastKey`;
+* `reused_like_fresh_partial`: a sen.Parser whose `lastKey` is empty behaves exactly like a fresh one,
+  whatever else the previous calls left behind (including a pending `+`).
+* BEFORE ece2934 (`keepPlus := true`): `reused_like_fresh_before_false` — with `plus` left set by a
+  failed call, `[x "a"]` parsed to `["xa"]` (finding C07sen-plus-not-reset), and `plus_survived_before`.
 
-NOT a theorem: that a non-empty `lastKey`/`lastStrKey` is harmless while `plus` is clear (they are only
-read after a `+` of the same call has copied the key of the member just stored); this is decided by the
-correspondence run: random call histories on one sen.Parser, each call compared with a fresh parser and
-with the model started from the `plus`/`lastStrKey`/`lastKey` the model says the previous call left. -/
+NOT a theorem (`reused_like_fresh_full` stays open, no counterexample known): that a non-empty `lastKey`
+is harmless (it is only read by a `+`, which copies it into `lastStrKey`, and the string that follows
+looks it up in the map on top of the stack — which is empty until a member of this call has been stored
+and has overwritten `lastKey`); this is decided by the correspondence run: random call histories on one
+sen.Parser, each call compared with a fresh parser and with the model started from the `lastKey` the
+model says the previous call left. -/
 namespace OjgVerif.C07sen
 open OjgVerif OjgVerif.Sen
 
 /-- the fields of sen.Parser the model treats as reset at entry (`stack`, `tmp`, `starts`, `result`,
 `noff`, `line`, `mode`, `mi`) or as arguments of the call (`cb`, `resultChan`, `OnlyOne`, `num.Conv`) -/
 def parserResetsModelled : List String :=
-  ["OnlyOne", "cb", "line", "mi", "mode", "noff", "num.Conv", "result", "resultChan", "stack", "starts", "tmp"]
+  ["OnlyOne", "cb", "lastStrKey", "line", "mi", "mode", "noff", "num.Conv", "plus", "result", "resultChan", "stack",
+   "starts", "tmp"]
 
 /-- the same for sen.Tokenizer -/
 def tokenizerResetsModelled : List String := ["handler", "line", "mi", "mode", "noff", "starts", "tmp"]
@@ -46,76 +48,90 @@ theorem resets_cover :
     (tokenizerResetsModelled.all fun f => Gen.SenFacts.tokLoadResets.contains f) = true := by
   decide +kernel
 
-/-- and the Go entry points reset nothing else: `plus`, `lastKey`, `lastStrKey`, `quoteDelim`, `ri`,
-`rn`, `exkey` are not in the regenerated lists -/
+/-- and the Go entry points reset nothing else: `lastKey`, `quoteDelim`, `ri`, `rn`, `exkey` are not in
+the regenerated lists -/
 theorem not_reset :
-    (["plus", "lastKey", "lastStrKey", "quoteDelim", "ri", "rn", "exkey"].all fun f =>
+    (["lastKey", "quoteDelim", "ri", "rn", "exkey"].all fun f =>
       !Gen.SenFacts.parseResets.contains f && !Gen.SenFacts.parseReaderResets.contains f &&
       !Gen.SenFacts.tokParseResets.contains f && !Gen.SenFacts.tokLoadResets.contains f) = true := by
   decide +kernel
 
 /-- a call sees the previous state only through what `entry` keeps -/
-theorem call_entry (T : Tables) (cfg : Cfg) (prev prev' : St) (h : prev.entry = prev'.entry) (chunks : List Bytes) :
+theorem call_entry (T : Tables) (cfg : Cfg) (prev prev' : St) (h : prev.entry cfg = prev'.entry cfg) (chunks : List Bytes) :
     call T cfg prev chunks = call T cfg prev' chunks := by
   unfold call
   rw [h]
 
-/-- what `entry` keeps -/
-theorem entry_eq (prev prev' : St) (h1 : prev.ri = prev'.ri) (h2 : prev.rn = prev'.rn) (h3 : prev.num = prev'.num)
-    (h4 : prev.quoteDelim = prev'.quoteDelim) (h5 : prev.lastKey = prev'.lastKey)
-    (h6 : prev.lastStrKey = prev'.lastStrKey) (h7 : prev.exkey = prev'.exkey) (h8 : prev.plus = prev'.plus) :
-    prev.entry = prev'.entry := by
+/-- what `entry` keeps (the code as it is) -/
+theorem entry_eq (cfg : Cfg) (hk : cfg.keepPlus = false) (prev prev' : St) (h1 : prev.ri = prev'.ri) (h2 : prev.rn = prev'.rn)
+    (h3 : prev.num = prev'.num) (h4 : prev.quoteDelim = prev'.quoteDelim) (h5 : prev.lastKey = prev'.lastKey)
+    (h7 : prev.exkey = prev'.exkey) : prev.entry cfg = prev'.entry cfg := by
   cases prev; cases prev'
   simp_all [St.entry]
 
+/-- the code as it is: `plus` and `lastStrKey` are reset at entry (ece2934), `addString` checks (285bbf9),
+`}` after a member name is an error (546d576) -/
+def Current (cfg : Cfg) : Prop := cfg.keepPlus = false ∧ cfg.plusFault = false ∧ cfg.missingValue = false
+
 /-- a reused instance behaves like a fresh one, whatever state the previous call left -/
-def reused_like_fresh_full : Prop :=
-  ∀ (cfg : Cfg) (prev : St) (chunks : List Bytes),
+def reused_like_fresh_full (cfg : Cfg) : Prop :=
+  ∀ (prev : St) (chunks : List Bytes),
     (match call refTables cfg prev chunks with | .ok o => o.docs.map JV.render | .error _ => ["error"]) =
     (match run refTables cfg chunks with | .ok o => o.docs.map JV.render | .error _ => ["error"])
 
-/-- `[x "a"]` on an instance that a failed call left with `+` pending gives `["xa"]` -/
-theorem reused_like_fresh_full_false : ¬ reused_like_fresh_full := by
+/-- BEFORE ece2934: `[x "a"]` on an instance that a failed call left with `+` pending gave `["xa"]` -/
+theorem reused_like_fresh_before_false : ¬ reused_like_fresh_full { keepPlus := true } := by
   intro h
-  have := h {} { plus := true } [[91, 120, 32, 34, 97, 34, 93]]
+  have := h { plus := true } [[91, 120, 32, 34, 97, 34, 93]]
   revert this
   decide +kernel
 
-/-- the state the failed call `["a" +` leaves behind has `plus` set (so the witness above is a
-reachable history: `Parse(["a" +)` then `Parse([x "a"])`) -/
-theorem plus_survives_failed_call :
-    (match run refTables {} [[91, 34, 97, 34, 32, 43]] with | .ok _ => false | .error e => e.plus) = true := by
+/-- BEFORE ece2934 the state the failed call `["a" +` left behind had `plus` set (so the witness above
+was a reachable history: `Parse(["a" +)` then `Parse([x "a"])`) -/
+theorem plus_survived_before :
+    (match run refTables { keepPlus := true } [[91, 34, 97, 34, 32, 43]] with | .ok _ => false | .error e => e.plus) = true := by
+  decide +kernel
+
+/-- the same history on the code as it is: the second call gives `["x" "a"]`, like a fresh parser -/
+example : (match call refTables {} { plus := true } [[91, 120, 32, 34, 97, 34, 93]] with
+    | .ok o => o.docs.map JV.render | .error _ => ["error"]) =
+    (match run refTables {} [[91, 120, 32, 34, 97, 34, 93]] with | .ok o => o.docs.map JV.render | .error _ => ["error"]) := by
   decide +kernel
 
 /-! ## the scratch fields are dead on entry -/
 
-/-- **Non-interference** (sen.Parser profile): two instances that agree on `plus`, `lastKey` and
-`lastStrKey` give the same outcome for the same call — whatever `ri`, `rn`, the number accumulator,
-`quoteDelim` and `exkey` the previous calls left — for every configuration, input and chunking, over every
-table set that passes `TablesOK`. -/
-theorem scratch_is_dead {T : Tables} (hT : TablesOK T) (cfg : Cfg) (hc : cfg.tokenizer = false) (prev prev' : St)
-    (h1 : prev.plus = prev'.plus) (h2 : prev.lastKey = prev'.lastKey) (h3 : prev.lastStrKey = prev'.lastStrKey)
-    (chunks : List Bytes) : call T cfg prev chunks = call T cfg prev' chunks := by
+/-- **Non-interference** (sen.Parser profile, the code as it is): two instances that agree on `lastKey`
+give the same outcome for the same call — whatever `plus`, `lastStrKey`, `ri`, `rn`, the number
+accumulator, `quoteDelim` and `exkey` the previous calls left — for every configuration, input and
+chunking, over every table set that passes `TablesOK`. -/
+theorem scratch_is_dead {T : Tables} (hT : TablesOK T) (cfg : Cfg) (hc : cfg.tokenizer = false) (hcur : Current cfg)
+    (prev prev' : St) (h2 : prev.lastKey = prev'.lastKey) (chunks : List Bytes) :
+    call T cfg prev chunks = call T cfg prev' chunks := by
   rw [call_eq_ref hT, call_eq_ref hT]
-  exact call_congr_ref cfg hc prev prev' h1 h2 h3 chunks
+  exact call_congr_ref cfg hc hcur.2.1 hcur.2.2 prev prev' (fun hk => by rw [hcur.1] at hk; cases hk) h2
+    (fun hk => by rw [hcur.1] at hk; cases hk) chunks
 
 /-- the same over the regenerated `sen/maps.go` -/
-theorem scratch_is_dead_sen (cfg : Cfg) (hc : cfg.tokenizer = false) (prev prev' : St)
-    (h1 : prev.plus = prev'.plus) (h2 : prev.lastKey = prev'.lastKey) (h3 : prev.lastStrKey = prev'.lastStrKey)
-    (chunks : List Bytes) : call senTables cfg prev chunks = call senTables cfg prev' chunks :=
-  scratch_is_dead senTables_ok cfg hc prev prev' h1 h2 h3 chunks
+theorem scratch_is_dead_sen (cfg : Cfg) (hc : cfg.tokenizer = false) (hcur : Current cfg) (prev prev' : St)
+    (h2 : prev.lastKey = prev'.lastKey) (chunks : List Bytes) :
+    call senTables cfg prev chunks = call senTables cfg prev' chunks :=
+  scratch_is_dead senTables_ok cfg hc hcur prev prev' h2 chunks
 
-/-- **C07 (SEN parser), partial form**: a reused sen.Parser with no `+` pending (and empty
-`lastKey`/`lastStrKey`) behaves like a fresh one -/
-theorem reused_like_fresh_partial (cfg : Cfg) (hc : cfg.tokenizer = false) (prev : St)
-    (hp : prev.plus = false) (hk : prev.lastKey = []) (hl : prev.lastStrKey = []) (chunks : List Bytes) :
+/-- **C07 (SEN parser), partial form**: a reused sen.Parser whose `lastKey` is empty behaves like a fresh
+one — same documents, same error, same position, for every input and chunking. (Excluded: a stale
+non-empty `lastKey`; see the header.) -/
+theorem reused_like_fresh_partial (cfg : Cfg) (hc : cfg.tokenizer = false) (hcur : Current cfg) (prev : St)
+    (hk : prev.lastKey = []) (chunks : List Bytes) :
     call senTables cfg prev chunks = run senTables cfg chunks :=
-  scratch_is_dead_sen cfg hc prev {} hp hk hl chunks
+  scratch_is_dead_sen cfg hc hcur prev {} hk chunks
 
-/-- non-vacuity: an instance left in the middle of a `\\u` escape inside a single-quoted string, expecting
-a key, with a half-read number, meets the hypotheses -/
+/-- non-vacuity: an instance left with `+` pending, in the middle of a `\\u` escape inside a single-quoted
+string, expecting a key, with a half-read number, meets the hypotheses -/
 example : ∃ prev : St, prev.ri = 3 ∧ prev.rn = 55357 ∧ prev.quoteDelim = 39 ∧ prev.exkey = true ∧ prev.num.neg = true ∧
-    prev.plus = false ∧ prev.lastKey = [] ∧ prev.lastStrKey = [] :=
-  ⟨{ ri := 3, rn := 55357, quoteDelim := 39, exkey := true, num := { neg := true }, mode := .u }, rfl, rfl, rfl, rfl, rfl, rfl, rfl, rfl⟩
+    prev.plus = true ∧ prev.lastStrKey = [97] ∧ prev.lastKey = [] :=
+  ⟨{ ri := 3, rn := 55357, quoteDelim := 39, exkey := true, num := { neg := true }, mode := .u, plus := true,
+     lastStrKey := [97] }, rfl, rfl, rfl, rfl, rfl, rfl, rfl, rfl⟩
+
+example : Current {} := ⟨rfl, rfl, rfl⟩
 
 end OjgVerif.C07sen
